@@ -231,11 +231,16 @@ class World:
                 elif f["kind"] == "secure" and v:
                     secrets.append(v)
                 elif f["kind"] == "list" and isinstance(v, list):
-                    for i in v:
-                        if f["item"]["kind"] == "schema" and isinstance(i, self.cinco.Config):
-                            walk(f["item"], i)
-                        elif f["item"]["kind"] == "secure" and i:
-                            secrets.append(i)
+                    walk_list(f, v)
+
+        def walk_list(f, v):
+            for i in v:
+                if f["item"]["kind"] == "schema" and isinstance(i, self.cinco.Config):
+                    walk(f["item"], i)
+                elif f["item"]["kind"] == "secure" and i:
+                    secrets.append(i)
+                elif f["item"]["kind"] == "list" and isinstance(i, list):
+                    walk_list(f["item"], i)
 
         walk(self.desc, self.cfg)
         found = []
@@ -378,7 +383,7 @@ def driver(cinco, desc, seed, n_traces, length):
             for _ in range(length):
                 r = rng.random()
                 if r < 0.6:
-                    which = rng.choice(["dflt", "dl", "name", "pw", "hash", "blob", "bl", "sl", "dd", "api", "sub.tok", "vault", "vault.sec", "vault.inner.tok", "items", "sitems", "sub.port", "vault.inner.n"])
+                    which = rng.choice(["dflt", "dl", "name", "pw", "hash", "blob", "bl", "sl", "nl", "dd", "api", "sub.tok", "vault", "vault.sec", "vault.inner.tok", "items", "sitems", "sub.port", "vault.inner.n"])
                     path, key = which.rsplit(".", 1) if "." in which else ("", which)
                     p = path.split(".") if path else []
                     if key in ("name", "api"):
@@ -398,6 +403,8 @@ def driver(cinco, desc, seed, n_traces, length):
                         v = {"t": "list", "l": [B(rng.randint(0, 6), rng) for _ in range(rng.randint(0, 3))]}
                     elif key == "sl":
                         v = {"t": "list", "l": [S(rnd_text(rng, 6, 10, edge=False)) if rng.random() < 0.8 else S("") for _ in range(rng.randint(0, 3))]}
+                    elif key == "nl":
+                        v = {"t": "list", "l": [{"t": "list", "l": [S(rnd_text(rng, 6, 10, edge=False)) if rng.random() < 0.8 else S("") for _ in range(rng.randint(0, 2))]} for _ in range(rng.randint(0, 2))]}
                     elif key == "dd":
                         v = {"t": "dict", "kv": [[S(k), B(rng.randint(0, 5), rng)] for k in rng.sample(["k1", "k2", "zz", "a-b", "a.b", "a_b"], rng.randint(0, 3))]}
                     elif key == "vault":
